@@ -265,6 +265,39 @@ def c05_dialect_frames(rep, tier, coverage, ctx):
                                "frame_rejections": n, "explanation": "result columns of the statement emitted for each of the 12 dialects, computed by SqlScope.tla from the re-parsed text, compared with the specified frame (SqlScopeTrace, rule FrameOk)"},
             "traces_validated_against_impl": coverage["traces_validated_against_impl"] + sr["judged"]}
 
+def c01_loop_family(rep, tier, coverage, ctx):
+    """loop (the book's pseudo-code, Loop in Prql.tla): initial relation x step pipeline x follower"""
+    inits = [[fromlit(["k"], [[1]])], [fromlit(["k", "a"], [[1, 0], [2, None], [2, None]])], [from_("t"), select(item("k"))],
+             [from_("t"), select(item("k"), item("a"))], [from_("t"), filter_(bin_(">", k, lit(1))), select(item("k"), item("a"))]]
+    def steps_for(two):
+        inc = lambda e: [item(e, "k")] + ([item("a")] if two else [])
+        return [[filter_(bin_("<", k, lit(4))), select(*inc(bin_("+", k, lit(1))))],
+                [filter_(bin_("<", k, lit(3))), select(*inc(bin_("+", k, lit(2))))],
+                [filter_(bin_("<", k, lit(6))), select(*inc(bin_("*", k, lit(2))))],
+                [select(*inc(bin_("+", k, lit(1)))), filter_(bin_("<", k, lit(4)))],
+                [filter_(bin_("&&", bin_("<", k, lit(4)), bin_(">", k, lit(0)))), derive(item(bin_("+", k, lit(1)), "k2")), select(*([item(col("k2"), "k")] + ([item("a")] if two else [])))],
+                [filter_(bin_("<", k, lit(0)))]]          # ends at once
+    posts = [[], [sort(("asc", "k")), take(1, 3)], [aggregate(item(agg("count", k), "n"), item(agg("sum", k), "s"))], [filter_(bin_(">", k, lit(2)))],
+             [group(["k"], [aggregate(item(agg("count", k), "n"))])], [derive(item(agg("sum", k), "tot"))], [select(item(bin_("*", k, lit(10)), "k10"))], [take(2, 4, True)]]
+    progs = []
+    for ini in inits:
+        two = len(ini[-1].get("items", ini[-1].get("cols", []))) == 2
+        for stp in steps_for(two):
+            for po in posts:
+                progs.append({"id": f"lp{len(progs)}", "decl": True, "steps": ini + [loop(stp)] + po})
+    def fix(st_):
+        st_.setdefault("at", [])
+        for key in ("with", "pipe"):
+            for x in st_.get(key, []) or []:
+                fix(x)
+    for p in progs:
+        for st_ in p["steps"]:
+            fix(st_)
+    dbset = os.path.join(ROOT, "corpus", "dbs_quick.json" if tier == "quick" else "dbs_thorough.json")
+    res = l1check.run(rep, "C01-loop", progs, dbset, CONFIG["C01"]["relevant"])
+    return {"loop_family": {"programs": len(progs), "accepted": res["accepted"], "rejected": res["rejected"], "not_judged": res["skipped"]},
+            "traces_validated_against_impl": coverage["traces_validated_against_impl"] + res["accepted"] + res["rejected"]}
+
 def c03_let_family(rep, tier, coverage, ctx):
     """C03 across declarations: a relation sorted inside a let (or a sort followed by group {} (take n)) and taken from
     in the consumer, followed by a transform that forces the take into a sub-query: sort x projection x take x follower."""
@@ -348,6 +381,7 @@ def c03_extra(rep, tier, coverage, ctx):
     return out
 
 CONFIG["C03"]["extra"] = c03_extra
+CONFIG["C01"]["extra"] = c01_loop_family
 CONFIG["C05"]["extra"] = c05_dialect_frames
 
 def check(pid, tier, extra=None):
